@@ -130,7 +130,11 @@ class Server:
 
     # environment actions
     def write(self, n):
-        self.obj.write(stream(self.written, n))
+        try:
+            self.obj.write(stream(self.written, n))
+        except ssl.SSLError:          # e.g. the client never completed the handshake: nothing can be written
+            self.log(event(ev="env", fn="write", n=n, res="refused"))
+            return
         self.log(event(ev="env", fn="write", n=n))
         self.written += n
         self._collect("data", n)
@@ -405,17 +409,20 @@ def run_schedule(sc):
                 r = getattr(tr, fn)(data)
                 sent += n if fn == "sendall" else (r if isinstance(r, int) else 0)
                 if fn == "send":
-                    res.update(kind="int", n=r)
+                    res.update(kind="int" if isinstance(r, int) else type(r).__name__, n=r if isinstance(r, int) else 0)
             elif fn in ("recv", "read"):
                 r = getattr(tr, fn)(n)
                 if isinstance(r, (bytes, bytearray)):
                     res.update(kind="bytes", n=len(r), data=list(r))
                 else:
-                    res.update(kind="int", n=r)
+                    res.update(kind="int" if isinstance(r, int) else type(r).__name__, n=r if isinstance(r, int) else 0)
             elif fn in ("recv_into", "read_into"):
                 buf = bytearray(head.get("buf", n))
                 r = tr.recv_into(buf, n) if fn == "recv_into" else tr.read(n, buf)
-                res.update(kind="int", n=r, data=list(buf[:r]) if isinstance(r, int) else [])
+                if isinstance(r, int):
+                    res.update(kind="int", n=r, data=list(buf[:r]))
+                else:
+                    res.update(kind=type(r).__name__, n=len(r) if hasattr(r, "__len__") else 0)
             elif fn == "mf_read":
                 mf = mf or tr.makefile("rb")
                 r = mf.read(n)
@@ -487,18 +494,18 @@ BASE = dict(sup="{TRUE, FALSE}", srv="{2}", maxw=2, rs="{1, 8}", ins="{0}", mfs=
             hsegs="{99}", misc="{}", rfns='{"recv", "recv_into", "mf_read"}', idle="{1}", maxops=2, maxt=0)
 PLANS = {
     # every way of reading x every segmentation of up to two records x clean / ragged / mid-record EOF
-    "reads": dict(BASE),
+    "reads": dict(BASE, mfs="{3}"),
     # send / sendall / unwrap / close / timeouts around one record
-    "writes": dict(BASE, maxw=1, rs="{8}", rfns='{"recv"}', ins="{}", mfs="{}", ss="{2}", misc=ALLMISC, maxt=1),
+    "writes": dict(BASE, maxw=1, rs="{8}", rfns='{"recv", "recv_into", "mf_read"}', ins="{1}", mfs="{1}", ss="{8}",
+                   misc=ALLMISC, maxt=1),
     # the handshake in __init__ under every segmentation of the server's flight, EOF and timeout
     "handshake": dict(BASE, hsegs="{1, 3, 99}", maxops=0, idle="{}", rfns="{}", rs="{}", ins="{}", mfs="{}"),
     # thorough: deeper
-    "reads3": dict(BASE, srv="{1, 2}", rs="{0, 1, 8}", ins="{0, 2}", segs="{1, 2, 99}", maxops=3),
-    "writes3": dict(BASE, maxw=2, rs="{1, 8}", rfns='{"recv", "read"}', ins="{}", mfs="{}", ss="{1, 3}", misc=ALLMISC,
-                    maxt=1, maxops=3, segs="{1, 2, 99}"),
-    "mixed": dict(BASE, srv="{1, 2}", rs="{1, 8}", ins="{0}", mfs="{3}", ss="{2}", misc=ALLMISC, maxt=1, maxops=2,
-                  hsegs="{4, 99}", segs="{1, 2, 99}"),
-    "bugs": dict(BASE, maxw=1, rs="{8}", ins="{0}", mfs="{3}", ss="{2}", misc=ALLMISC, maxt=1, sup="{FALSE}"),
+    "reads3": dict(BASE, rs="{0, 1, 8}", ins="{0, 2}", mfs="{1, 3}", segs="{1, 2, 99}"),
+    "writes3": dict(BASE, maxw=1, rs="{8}", rfns='{"recv", "read"}', ins="{}", mfs="{}", ss="{1, 9}", misc=ALLMISC,
+                    maxt=1, maxops=3),
+    "mixed": dict(BASE, srv="{1, 2}", rs="{8}", ins="{1}", mfs="{3}", ss="{8}", misc=ALLMISC, maxt=1),
+    "bugs": dict(BASE, maxw=1, rs="{8}", ins="{0}", mfs="{3}", ss="{8}", misc=ALLMISC, maxt=1, sup="{FALSE}"),
 }
 
 
